@@ -128,10 +128,14 @@ def main(argv):
         "precedence of a namespace= argument is not claimed (undocumented)",
         "values are ints tagged with the source they come from; dict items are k<i>",
     ]
-    cases = []
+    n_model = 0
     for focus in FOCI[tier]:
         cfgname = f"MC_Sources_{'quick' if focus in FOCI['quick'] else 'thorough'}_{focus}"
-        mc = tlc.run("MC_Sources", cfgname, workers=16, timeout=2400, heap="12g")
+        # thorough: TLC checks every behaviour; the behaviours are kept as text and replayed in slices, for the large
+        # instances a deterministic sample (1 in RAW_MOD, chosen by a digest of the record) -- decoded all at once
+        # they do not fit into memory
+        raw = 0 if tier == "quick" else RAW_MOD.get(focus, 1)
+        mc = tlc.run("MC_Sources", cfgname, workers=16, timeout=4800, heap="12g", raw_mod=raw)
         rep.add_tlc(cfgname, mc)
         if mc.errors:
             if mc.violated:
@@ -139,22 +143,42 @@ def main(argv):
                               {"tlc_errors": mc.errors, "counterexample": mc.cex[:6000]})
                 continue
             machinery_failure(PID, f"TLC failed on {cfgname}:\n" + mc.stdout[-3000:])
-        got = [p for p in mc.printed if isinstance(p, dict) and "s" in p]
-        if len(got) != mc.init_states or not got:
-            machinery_failure(PID, f"{cfgname}: emitted {len(got)} behaviours for {mc.init_states} initial states")
-        got.sort(key=lambda c: json.dumps(c["s"], sort_keys=True))
-        for n, c in enumerate(got):
-            cases.append({"s": c["s"], "ref": c["ref"], "alg": c["alg"], "dev": c["dev"], "kinds": KINDS, "variant": n % 6, "focus": focus})
-    rep.extra["model_behaviours"] = len(cases)
+        if raw:
+            texts = [s for s in mc.printed if isinstance(s, str) and s.startswith("{") and '"s":' in s]
+            n_emitted = mc.printed_total
+        else:
+            texts = [json.dumps(p, sort_keys=True, separators=(",", ":")) for p in mc.printed if isinstance(p, dict) and "s" in p]
+            n_emitted = len(texts)
+        if n_emitted != mc.init_states or not texts:
+            machinery_failure(PID, f"{cfgname}: emitted {n_emitted} behaviours for {mc.init_states} initial states")
+        rep.extra.setdefault("model_behaviours_checked", {})[focus] = n_emitted
+        mc.printed, mc.stdout = [], ""
+        del mc
+        texts.sort()
+        for lo in range(0, len(texts), 50000):
+            cases = []
+            for n, s in enumerate(texts[lo:lo + 50000], start=lo):
+                c = json.loads(s)
+                cases.append({"s": c["s"], "ref": c["ref"], "alg": c["alg"], "dev": c["dev"], "kinds": KINDS, "variant": n % 6, "focus": focus})
+            # ---- REPLAY: spec -> code
+            results = pipeline.run_many(pipeline.run_source_case, cases)
+            n_model += len(cases)
+            judge_model(rep, cases, results)
+            del cases, results
+        del texts
+    rep.extra["model_behaviours"] = n_model
+    replay_random(rep, tier, rnd, n_model)
+    return rep.finish()
 
-    # ---- REPLAY: spec -> code
-    results = pipeline.run_many(pipeline.run_source_case, cases)
-    n_err = 0
+
+RAW_MOD: dict = {}   # focus -> 1 in n behaviours replayed in the thorough tier (default: all)
+
+
+def judge_model(rep, cases, results):
     for c, r in zip(cases, results):
         rep.traces += 1
         s = c["s"]
         if "err" in r:
-            n_err += 1
             rep.violation(f"rejected:{s['method']}:{r['cls']}", f"a valid source assignment was rejected: {r['err']}", {"case": c, "result": r})
             continue
         obs = r["ok"]
@@ -177,6 +201,8 @@ def main(argv):
         if rep.traces % 9973 == 1:
             rep.sample({"source": s, "call": r.get("call"), "env": r.get("env"), "expected_fold": c["ref"], "observed": obs})
 
+
+def replay_random(rep, tier, rnd, n_model):
     # ---- TRACE: code -> spec on richer random mixes
     ntr = 1500 if tier == "quick" else 25000
     rcases = [{"s": random_source(rnd), "kinds": RICH_KINDS, "variant": rnd.randint(0, 5)} for _ in range(ntr)]
@@ -222,10 +248,9 @@ def main(argv):
     rep.rule = ("cases = source assignments (which sources exist and what each assigns to which key with which operation); every behaviour of the bounded "
                 "TLC instances plus seeded random mixes over a richer shape; non-trivial & distinct = distinct assignments whose result differs from the plain defaults")
     rep.exhaustive = False
-    rep.explanation = (f"{len(cases)} behaviours = ALL behaviours of the bounded instances {FOCI[tier]} (per key kind exhaustively, two keys with shorter argv) were replayed on "
+    rep.explanation = (f"{n_model} behaviours = ALL behaviours of the bounded instances {FOCI[tier]} (per key kind exhaustively, two keys with shorter argv) were replayed on "
                        f"the real parser; {len(oks)} random mixes beyond the bounds were validated by TLC (Trace_Sources). The product over all keys is not enumerated. "
                        f"Below a sub-command: all {rep.extra.get('sub_model_cases')} cases of MC_SubSources replayed, {rep.extra.get('sub_random_cases')} random cases validated by Trace_SubSources.")
-    return rep.finish()
 
 
 def _first_bad(s, obs):
